@@ -16,3 +16,12 @@ claim('C06', 'other',
       'Static who-writes / shape / must-pass-through analysis: complete writer set of Session.fcnt_up with +1 shape and exhaustion guard (SessionExpired instead of wrap); prepare_buffer uses the full 32-bit counter; on every path of both front-ends between handing a frame to the radio and the next frame preparation an increment occurs - exits where it does not are enumerated individually (known findings: error exits of the async send chain, two nb Idle exits).',
       'Trusted: rustc MIR construction incl. coroutine bodies; await recognition (into_future/poll/yield pattern). External writes to the pub field fcnt_up are not analysed.',
       'static analysis: who-writes + forward may-dataflow (must-pass-through) over async and nb state-machine MIR', 'DESIGN.md 4/C06')
+
+claim('C12', 'other',
+      'Static provenance / who-writes / path-condition analysis on MIR: every DataFrame header field built by Session::prepare_buffer has the required source (session address, application message type, adr_enabled, ADRACKReq = adr ∧ cnt>=64 ∧ lower rate exists, ACK = owed flag cleared on use); complete writer sets of the owed-ACK flag, the ADR counter, data_rate and adr_enabled with each writer\'s guard and value; back-off store under cnt>=96 ∧ (cnt-64)%32==0 ∧ Some(lower). Per-step facts for all histories; not counting over long histories.',
+      'Trusted: rustc MIR construction; path conditions = branch edges every path must take; constants 64/32 frozen from the specification.',
+      'static analysis: value provenance (def chains), path conditions from dominating branch edges, who-writes', 'DESIGN.md 4/C12')
+claim('C08', 'other',
+      'Static path-condition analysis of the MAC command handler: each state write of each request arm is guarded by every acknowledgement bit reported in the answer; channel-plan mutations inside NewChannel/DlChannel handling only on paths returning all-true acknowledgements; written values are the commanded ones (or "keep" for 15); exactly one answer site per request (LinkADR: per-request counter); answers appended whole under the capacity guard; retained-answer set extracted as a decision table; RFU verdict of channel_mask_update not discarded. Decides these for all command byte values; not trailing-drop over sequences.',
+      'Trusted: rustc MIR construction; effect summaries; sticky set / FOpts limit frozen from the specification.',
+      'static analysis: path conditions vs acknowledgement provenance, decision table of the sticky filter, who-calls', 'DESIGN.md 4/C08')
